@@ -1,192 +1,6 @@
 ------------------------------- MODULE Format -------------------------------
-(***************************************************************************)
-(* Canonical Temporal / RFC 9557 writer as operators over abstract values,  *)
-(* and the session state machine  value --Format--> text --Parse--> value   *)
-(* whose laws (round trip, idempotence, canonical shape) are invariants     *)
-(* over `last`. The reader is Grammar's recognizer.                         *)
-(*   dates {y,m,d,cal}; times six fields; date-times nine fields + cal;     *)
-(*   year-months {y,m,cal[,rd]}; month-days {m,d,cal[,ry]};                 *)
-(*   instants = exact epoch nanoseconds (BigInt);                           *)
-(*   durations = ten BigInt fields; zoned = {ns, tz (characters), cal}.     *)
-(* Precision: -1 = auto, 0..9 = that many fractional digits, -2 = minute.   *)
-(***************************************************************************)
-EXTENDS Grammar
-
-(* ---------------- pieces ---------------- *)
-PadYear(y) == IF y >= 0 /\ y <= 9999 THEN PadN(y, 4) ELSE (IF y < 0 THEN "-" ELSE "+") \o PadN(AbsI(y), 6)
-RECURSIVE StripZeros(_)
-StripZeros(s) == IF Len(s) > 0 /\ SubSeq(s, Len(s), Len(s)) = "0" THEN StripZeros(SubSeq(s, 1, Len(s) - 1)) ELSE s
-\* fractional part of a second: minimal digits under auto, exactly p digits (truncating) otherwise
-Frac(ns, p) == IF p = -1 THEN (IF ns = 0 THEN "" ELSE "." \o StripZeros(PadN(ns, 9)))
-               ELSE IF p <= 0 THEN "" ELSE "." \o SubSeq(PadN(ns, 9), 1, p)
-\* the precision a smallest-unit option stands for
-EffPrec(p, su) == CASE su = "minute" -> -2 [] su = "second" -> 0 [] su = "millisecond" -> 3 [] su = "microsecond" -> 6
-                    [] su = "nanosecond" -> 9 [] OTHER -> p
-SubNs(t) == t.ms * 1000000 + t.us * 1000 + t.ns
-FmtTime(t, p) == Pad2(t.h) \o ":" \o Pad2(t.mi) \o (IF p = -2 THEN "" ELSE ":" \o Pad2(t.s) \o Frac(SubNs(t), p))
-FmtDate(d) == PadYear(d.y) \o "-" \o Pad2(d.m) \o "-" \o Pad2(d.d)
-Offset(min) == OffsetText(min)                                   \* +HH:MM / -HH:MM
-CalAnn(cal, show) == IF show = "never" \/ (show = "auto" /\ cal = "iso8601") THEN ""
-                     ELSE "[" \o (IF show = "critical" THEN "!" ELSE "") \o "u-ca=" \o cal \o "]"
-TzAnn(id, show) == IF show = "never" THEN "" ELSE "[" \o (IF show = "critical" THEN "!" ELSE "") \o id \o "]"
-
-\* decimal text of a non-negative big
-RECURSIVE LimbText(_, _)
-LimbText(l, i) == IF i = 0 THEN "" ELSE PadN(l[i], 4) \o LimbText(l, i - 1)
-BigText(b) == IF b.s = 0 THEN "0" ELSE ToString(b.l[Len(b.l)]) \o LimbText(b.l, Len(b.l) - 1)
-
-\* exact epoch nanoseconds -> [day, sod, sub]
-SplitEpoch(b) == LET a1 == FloorDivSmall(b, 1000)
-                     a2 == FloorDivSmall(a1.q, 1000)
-                     a3 == FloorDivSmall(a2.q, 1000)
-                     a4 == FloorDivSmall(a3.q, 86400)
-                 IN [day |-> ToInt(a4.q), sod |-> a4.r, sub |-> a3.r * 1000000 + a2.r * 1000 + a1.r]
-WallOf(b, offmin) == LET e == SplitEpoch(Add(b, K9(FromInt(offmin * 60))))
-                         d == CivilFromDays(e.day)
-                     IN [y |-> d.y, m |-> d.m, d |-> d.d, h |-> e.sod \div 3600, mi |-> (e.sod \div 60) % 60, s |-> e.sod % 60,
-                         ms |-> e.sub \div 1000000, us |-> (e.sub \div 1000) % 1000, ns |-> e.sub % 1000]
-\* minutes of a fixed-offset zone identifier / of "UTC" (characters)
-ZoneMinutes(tz) == IF tz = Chars("UTC") THEN 0 ELSE OffMinutes(OffAt(tz, 1))
-
-\* canonical identifier of a zone: +HH:MM for offset zones, the name otherwise
-ZoneText(tz) == IF Ch(tz, 1) \in {"+", "-"} THEN Offset(ZoneMinutes(tz)) ELSE Join(tz)
-
-(* ---------------- per type ---------------- *)
-FmtPlainDate(v, cd) == FmtDate(v) \o CalAnn(v.cal, cd)
-FmtPlainDateTime(v, p, cd) == FmtDate(v) \o "T" \o FmtTime(v, p) \o CalAnn(v.cal, cd)
-FmtPlainTime(v, p) == FmtTime(v, p)
-RefDay(v) == IF "rd" \in DOMAIN v THEN v.rd ELSE 1
-RefYear(v) == IF "ry" \in DOMAIN v THEN v.ry ELSE 1972
-ShowsReference(cal, cd) == cd \in {"always", "critical"} \/ cal # "iso8601"
-FmtYearMonth(v, cd) == PadYear(v.y) \o "-" \o Pad2(v.m) \o (IF ShowsReference(v.cal, cd) THEN "-" \o Pad2(RefDay(v)) ELSE "") \o CalAnn(v.cal, cd)
-FmtMonthDay(v, cd) == (IF ShowsReference(v.cal, cd) THEN PadYear(RefYear(v)) \o "-" ELSE "") \o Pad2(v.m) \o "-" \o Pad2(v.d) \o CalAnn(v.cal, cd)
-\* tz = <<>>: UTC with the Z designator; otherwise a fixed-offset zone whose offset is printed
-FmtInstant(b, p, tz) == LET off == IF tz = <<>> THEN 0 ELSE ZoneMinutes(tz)
-                            w == WallOf(b, off)
-                        IN FmtDate(w) \o "T" \o FmtTime(w, p) \o (IF tz = <<>> THEN "Z" ELSE Offset(off))
-\* offmin: the zone's offset at that instant (computed for fixed-offset zones, supplied for named ones)
-FmtZonedAt(v, offmin, p, od, zd, cd) ==
-  LET w == WallOf(v.ns, offmin)
-  IN FmtDate(w) \o "T" \o FmtTime(w, p) \o (IF od = "never" THEN "" ELSE Offset(offmin)) \o TzAnn(ZoneText(v.tz), zd) \o CalAnn(v.cal, cd)
-FmtZoned(v, p, od, zd, cd) == FmtZonedAt(v, ZoneMinutes(v.tz), p, od, zd, cd)
-
-(* ---------------- durations ---------------- *)
-AbsDur(D) == IF DurSign(D) = -1 THEN NegDur(D) ELSE D
-\* seconds and sub-second fields as one exact count of nanoseconds (>= 0 for an absolute duration)
-SecNs(D) == Add(Add(K9(D.s), K6(D.ms)), Add(K3(D.us), D.ns))
-SplitSec(b) == LET a1 == TruncDivSmall(b, 1000)
-                   a2 == TruncDivSmall(a1.q, 1000)
-                   a3 == TruncDivSmall(a2.q, 1000)
-               IN [secs |-> a3.q, sub |-> a3.r * 1000000 + a2.r * 1000 + a1.r]
-DefaultLargest(A) == IF A.y.s # 0 THEN "year" ELSE IF A.mo.s # 0 THEN "month" ELSE IF A.w.s # 0 THEN "week" ELSE IF A.d.s # 0 THEN "day"
-                     ELSE IF A.h.s # 0 THEN "hour" ELSE IF A.mi.s # 0 THEN "minute" ELSE "second"
-\* fixed precision below nanoseconds: the time part is truncated to the precision and re-balanced up to the default largest unit
-BalanceFor(A, p) ==
-  IF p = -1 \/ p = 9 THEN A ELSE
-  LET tt == SplitSec(TimeNs(A))
-      sub == (tt.sub \div Pow10I(9 - p)) * Pow10I(9 - p)
-      lg == DefaultLargest(A)
-      qm == TruncDivSmall(tt.secs, 60)
-      qh == TruncDivSmall(qm.q, 60)
-      qd == TruncDivSmall(qh.q, 24)
-      fs(x) == [A EXCEPT !.ms = FromInt(x \div 1000000), !.us = FromInt((x \div 1000) % 1000), !.ns = FromInt(x % 1000)]
-  IN IF lg \in {"year", "month", "week", "day"} THEN [fs(sub) EXCEPT !.d = Add(A.d, qd.q), !.h = FromInt(qd.r), !.mi = FromInt(qh.r), !.s = FromInt(qm.r)]
-     ELSE IF lg = "hour" THEN [fs(sub) EXCEPT !.h = qh.q, !.mi = FromInt(qh.r), !.s = FromInt(qm.r)]
-     ELSE IF lg = "minute" THEN [fs(sub) EXCEPT !.mi = qm.q, !.s = FromInt(qm.r)]
-     ELSE [fs(sub) EXCEPT !.s = tt.secs]
-Part(b, des) == IF b.s = 0 THEN "" ELSE BigText(b) \o des
-FmtDuration(D, p) ==
-  LET A == BalanceFor(AbsDur(D), p)
-      ss == SplitSec(SecNs(A))
-      datePart == Part(A.y, "Y") \o Part(A.mo, "M") \o Part(A.w, "W") \o Part(A.d, "D")
-      secPart == IF SecNs(A).s # 0 \/ DefaultLargest(A) = "second" \/ p # -1
-                 THEN BigText(ss.secs) \o Frac(ss.sub, p) \o "S" ELSE ""
-      timePart == Part(A.h, "H") \o Part(A.mi, "M") \o secPart
-  IN (IF DurSign(D) = -1 /\ DurSign(A) # 0 THEN "-" ELSE "") \o "P" \o datePart \o (IF timePart = "" THEN "" ELSE "T" \o timePart)
-\* the value a duration string stands for: sub-second fields folded into seconds and re-split
-Fold(D) == LET A == AbsDur(D)
-               ss == SplitSec(SecNs(A))
-               F == [A EXCEPT !.s = ss.secs, !.ms = FromInt(ss.sub \div 1000000), !.us = FromInt((ss.sub \div 1000) % 1000), !.ns = FromInt(ss.sub % 1000)]
-           IN IF DurSign(D) = -1 THEN NegDur(F) ELSE F
-
-(* ---------------- one entry point ---------------- *)
-\* o = [p, su, cd, od, zd, tz]  (fields a type does not use are ignored)
-Format(ty, v, o) ==
-  LET p == EffPrec(o.p, o.su) IN
-  CASE ty = "PlainDate" -> FmtPlainDate(v, o.cd)
-    [] ty = "PlainDateTime" -> FmtPlainDateTime(v, p, o.cd)
-    [] ty = "PlainTime" -> FmtPlainTime(v, p)
-    [] ty = "PlainYearMonth" -> FmtYearMonth(v, o.cd)
-    [] ty = "PlainMonthDay" -> FmtMonthDay(v, o.cd)
-    [] ty = "Instant" -> FmtInstant(v, p, o.tz)
-    [] ty = "ZonedDateTime" -> FmtZoned(v, p, o.od, o.zd, o.cd)
-    [] ty = "Duration" -> FmtDuration(v, p)
-DefaultOpts == [p |-> -1, su |-> "", cd |-> "auto", od |-> "auto", zd |-> "auto", tz |-> <<>>]
-\* options a formatter accepts: durations refuse hour/minute as smallest unit; digits are 0..9
-OptsValid(ty, o) == o.p \in -1..9 /\ ~(ty = "Duration" /\ o.su = "minute")
-
-\* the value the printed text still determines (what a parse of it must return), or "lost" if the type cannot be read back
-TruncSub(x, p) == IF p = -1 THEN x ELSE IF p = -2 THEN 0 ELSE (x \div Pow10I(9 - p)) * Pow10I(9 - p)
-TruncTime(t, p) == LET x == TruncSub(SubNs(t), p) IN
-                   [h |-> t.h, mi |-> t.mi, s |-> IF p = -2 THEN 0 ELSE t.s, ms |-> x \div 1000000, us |-> (x \div 1000) % 1000, ns |-> x % 1000]
-ShownCal(cal, cd) == IF cd = "never" THEN "iso8601" ELSE cal
-FloorBig(b, p) == \* instant truncated (towards the past) to precision p
-  IF p = -1 \/ p = 9 THEN b
-  ELSE LET e == SplitEpoch(b)
-           s2 == IF p = -2 THEN (e.sod \div 60) * 60 ELSE e.sod
-       IN EpochNs(e.day, s2, TruncSub(e.sub, p), 0, 0)
-Readback(ty, v, o) ==
-  LET p == EffPrec(o.p, o.su) IN
-  CASE ty = "PlainDate" -> [y |-> v.y, m |-> v.m, d |-> v.d, cal |-> ShownCal(v.cal, o.cd)]
-    [] ty = "PlainDateTime" -> [y |-> v.y, m |-> v.m, d |-> v.d, cal |-> ShownCal(v.cal, o.cd)] @@ TruncTime(v, p)
-    [] ty = "PlainTime" -> TruncTime(v, p)
-    [] ty = "PlainYearMonth" -> [y |-> v.y, m |-> v.m, cal |-> ShownCal(v.cal, o.cd)]
-    [] ty = "PlainMonthDay" -> [m |-> v.m, d |-> v.d, cal |-> ShownCal(v.cal, o.cd)]
-    [] ty = "Instant" -> FloorBig(v, p)
-    [] ty = "ZonedDateTime" -> [ns |-> FloorBig(v.ns, p), tz |-> Chars(ZoneText(v.tz)), cal |-> ShownCal(v.cal, o.cd)]
-    [] ty = "Duration" -> LET X == Fold(BalanceFor(AbsDur(v), p)) IN IF DurSign(v) = -1 THEN NegDur(X) ELSE X
-KeepsInfo(ty, v, o) ==
-  LET p == EffPrec(o.p, o.su) IN
-  /\ (ty \in {"PlainDate", "PlainDateTime", "PlainYearMonth", "PlainMonthDay", "ZonedDateTime"} => (o.cd # "never" \/ v.cal = "iso8601"))
-  /\ (ty = "ZonedDateTime" => o.zd # "never")
-  /\ (ty \in {"PlainDateTime", "PlainTime"} => TruncTime(v, p) = [h |-> v.h, mi |-> v.mi, s |-> v.s, ms |-> v.ms, us |-> v.us, ns |-> v.ns])
-  /\ (ty = "Instant" => FloorBig(v, p) = v)
-  /\ (ty = "ZonedDateTime" => FloorBig(v.ns, p) = v.ns)
-  /\ (ty = "Duration" => p \in {-1, 9})
-\* the value itself in the shape the parsers report (durations: folded; reference fields are not part of the value)
-Canon(ty, v) == CASE ty = "Duration" -> Fold(v)
-                  [] ty = "PlainYearMonth" -> [y |-> v.y, m |-> v.m, cal |-> v.cal]
-                  [] ty = "PlainMonthDay" -> [m |-> v.m, d |-> v.d, cal |-> v.cal]
-                  [] ty = "ZonedDateTime" -> [v EXCEPT !.tz = Chars(ZoneText(v.tz))]
-                  [] OTHER -> v
-
-\* a formatter call fails exactly when the options are invalid or truncation leaves the type's range
-FormatFails(ty, v, o) ==
-  LET t == TruncTime(v, EffPrec(o.p, o.su)) IN
-  ty = "PlainDateTime" /\ ~DateTimeInRange(DFC(v), [h |-> t.h, mi |-> t.mi, s |-> t.s, fr |-> SubNs(t)])
-FormatOut(ty, v, o) == IF ~OptsValid(ty, o) \/ FormatFails(ty, v, o) THEN ErrRange ELSE Ok(Chars(Format(ty, v, o)))
-
-(* ---------------- enum names ---------------- *)
-EnumTable ==
-  [Unit |-> <<<<"Auto", "auto">>, <<"Nanosecond", "nanosecond">>, <<"Microsecond", "microsecond">>, <<"Millisecond", "millisecond">>,
-              <<"Second", "second">>, <<"Minute", "minute">>, <<"Hour", "hour">>, <<"Day", "day">>, <<"Week", "week">>, <<"Month", "month">>, <<"Year", "year">>>>,
-   RoundingMode |-> <<<<"Ceil", "ceil">>, <<"Floor", "floor">>, <<"Expand", "expand">>, <<"Trunc", "trunc">>, <<"HalfCeil", "halfCeil">>,
-                      <<"HalfFloor", "halfFloor">>, <<"HalfExpand", "halfExpand">>, <<"HalfTrunc", "halfTrunc">>, <<"HalfEven", "halfEven">>>>,
-   ArithmeticOverflow |-> <<<<"Constrain", "constrain">>, <<"Reject", "reject">>>>,
-   DurationOverflow |-> <<<<"Constrain", "constrain">>, <<"Balance", "balance">>>>,
-   Disambiguation |-> <<<<"Compatible", "compatible">>, <<"Earlier", "earlier">>, <<"Later", "later">>, <<"Reject", "reject">>>>,
-   OffsetDisambiguation |-> <<<<"Use", "use">>, <<"Prefer", "prefer">>, <<"Ignore", "ignore">>, <<"Reject", "reject">>>>,
-   DisplayCalendar |-> <<<<"Auto", "auto">>, <<"Always", "always">>, <<"Never", "never">>, <<"Critical", "critical">>>>,
-   DisplayOffset |-> <<<<"Auto", "auto">>, <<"Never", "never">>>>,
-   DisplayTimeZone |-> <<<<"Auto", "auto">>, <<"Never", "never">>, <<"Critical", "critical">>>>]
-Enums == DOMAIN EnumTable
-EnumText(e, variant) == LET t == EnumTable[e] IN t[CHOOSE i \in 1..Len(t) : t[i][1] = variant][2]
-\* the variant a name stands for ("" if none); unit names also have a plural form
-EnumParse(e, text) ==
-  LET t == EnumTable[e]
-      hit == {i \in 1..Len(t) : t[i][2] = text \/ (e = "Unit" /\ t[i][1] # "Auto" /\ t[i][2] \o "s" = text)}
-  IN IF hit = {} THEN "" ELSE t[CHOOSE i \in hit : TRUE][1]
-
+(* The session state machine value --Format--> text --Parse--> value on top of the writer operators of FormatOps. *)
+EXTENDS Grammar, FormatOps
 (* ---------------- session state machine ---------------- *)
 \* cur = [ph |-> "value" | "text" | "value2" | "text2", ty, v, o, str]; FormatAct prints, ParseAct reads back
 CONSTANTS FValues,     \* set of [ty, v] to start from
@@ -258,7 +72,7 @@ FmtCls(ty, v, o) ==
   ty \o "/" \o (CASE ty \in {"PlainDate", "PlainDateTime", "PlainYearMonth"} -> YearBucket(v.y) \o (IF v.cal = "iso8601" THEN "" ELSE ",non-iso")
                   [] ty = "PlainMonthDay" -> IF v.cal = "iso8601" THEN "iso" ELSE "non-iso"
                   [] ty = "Duration" -> DurShape(v)
-                  [] ty = "ZonedDateTime" -> (IF ZoneMinutes(v.tz) % 60 # 0 THEN "offset-minutes" ELSE "offset-hours") \o (IF v.cal = "iso8601" THEN "" ELSE ",non-iso")
+                  [] ty = "ZonedDateTime" -> (IF ~(Ch(v.tz, 1) \in {"+", "-"} \/ v.tz = Chars("UTC")) THEN "named-zone" ELSE IF ZoneMinutes(v.tz) % 60 # 0 THEN "offset-minutes" ELSE "offset-hours") \o (IF v.cal = "iso8601" THEN "" ELSE ",non-iso")
                   [] ty = "Instant" -> (IF v.s = -1 THEN "before-epoch" ELSE "epoch-or-later") \o (IF FloorBig(v, EffPrec(o.p, o.su)) = v THEN "" ELSE ",truncating")
                   [] OTHER -> "any")
      \o "/" \o (IF ty = "Instant" /\ FloorBig(v, EffPrec(o.p, o.su)) # v THEN "p<9" \o (IF o.tz # <<>> THEN ",zone" ELSE "") ELSE OptTag(ty, o))
